@@ -90,12 +90,9 @@ def pinv_exact(A):
     return _matmul(_matmul(Ct, _inv(_matmul(C, Ct))), _matmul(_inv(_matmul(Bt, B)), Bt))
 
 
-class _ShimLinalg:
+class _ShimLinalg(shim._BasicLinalg):
     def __init__(self, real):
-        self._real = real
-
-    def __getattr__(self, k):
-        return getattr(self._real, k)
+        super().__init__()
 
     def lstsq(self, A, b, rcond=None):
         if not has_sym(b) and not has_sym(A):
